@@ -40,7 +40,8 @@ PROBES = ["card skipped by sampler (all its contests finished)", "card listing n
           "contest with n_c=0", "contest taking every card", "records returned out of order",
           "two contests share threshold card", "continued call added cards", "sample numbers equal as floats",
           "second draw on the same contests with new numbers", "list sorted in place between draws",
-          "size beyond the number of real CVRs (phantoms needed)"]
+          "size beyond the number of real CVRs (phantoms needed)", "sample sizes handed over as numpy integers",
+          "sample size above 256"]
 
 
 class SchedPrng:
@@ -60,6 +61,8 @@ class SchedPrng:
 def generate(rng, tier):
     cfg = TIERS[tier]
     ncards = rng.randint(1, rng.pick([6, 12, cfg["max_cards"]]))
+    if rng.chance(cfg.get("p_large", 0.01)):
+        ncards = rng.randint(280, 700)  # sample sizes in the hundreds, as in a real audit
     ncon = rng.randint(1, 4)
     cids = [f"K{j}" for j in range(ncon)]
     contests = {}
@@ -132,6 +135,7 @@ def generate(rng, tier):
                 cur[cid] = min(avail, cur[cid] + rng.randint(0, max(1, avail // 2)))
         nxt.append(cur)
     return {"contests": contests, "cards": cards, "alt": alt, "numbering": numbering, "sizes": sizes, "sizes_next": nxt,
+            "size_type": rng.pick(["int", "int", "np"]),
             "pipeline": rng.chance(0.35), "return_order": rng.perm(ncards), "mvr_from_alt": rng.chance(0.5),
             # auditors' faults on the manual records: card not found (phantom record), record lacks a contest
             # a second, independent draw on the same Contest objects and the same list (a pilot, then the real draw):
@@ -193,8 +197,13 @@ def execute(case):
         out.probe("sample numbers collide")
         return out  # outside the statement's domain
     sizes = case["sizes"]
+    as_np = case.get("size_type") == "np"  # sizes as the library's own estimate leaves them (numpy integers)
+    if as_np:
+        out.probe("sample sizes handed over as numpy integers")
+    if any(v > 256 for v in sizes.values()):
+        out.probe("sample size above 256")
     for cid, con in contests.items():
-        con.sample_size = sizes[cid]
+        con.sample_size = np.int64(sizes[cid]) if as_np else sizes[cid]
     ref_idx, ref_thr, ref_per = reference(cards, nums, sizes)
     out.units["draws"] += len(ref_idx)
     out.units["sampler_calls"] += 1
@@ -261,7 +270,7 @@ def execute(case):
         flags0 = [c.sampled for c in cvrs]
         for step, sz in enumerate(case.get("sizes_next", [])):
             for cid, con in contests.items():
-                con.sample_size = sz[cid]
+                con.sample_size = np.int64(sz[cid]) if as_np else sz[cid]
             r_idx, r_thr, _r_per = reference(cards, nums, sz)
             out.units["sampler_calls"] += 1
             try:
